@@ -105,10 +105,64 @@ else:
     lost = sorted(cleared - written)
     ck.notes.append(f'cleared on the live router: {sorted(cleared)}; written while copying back: {sorted(written)}')
     ck.require(ex, 'C1_every_cleared_slab_is_refilled', res[0].pc[:0] if res else [], None, z3.BoolVal(not lost), lambda m: {'op': 'rollback', 'slabs_not_refilled': lost}, lambda m, w: 'slabs-cleared-not-restored:' + ','.join(lost))
+# ------------------------------------------------------------------ C2: a restored blob log never hands out a segment id again
+# BlobLog::restore_from (in place, used by the rollback) and BlobLog::restore executed from MIR on a snapshot with 0..2 sealed
+# segments and an active one, all ids symbolic: the next segment id must exceed every id in the restored log (the active segment is
+# sealed under its id when it fills up; a new segment with the same id would shadow it).
+ck.declare('C2_restored_blob_log_issues_fresh_segment_ids', 'BlobLog::restore_from / restore on snapshots with 0..2 sealed segments + the active one (ids symbolic, no index entries)',
+           'afterwards next_segment_id is greater than the id of every sealed segment and of the active segment')
+c2_saved = dict(ex.extra_models)
+for k in [k for k in ex.extra_models if k.startswith('BlobLog::')]:
+    del ex.extra_models[k]
+FB = lambda n: P.field('BlobLog', n)
+restored = 0
+for nsealed in (0, 1, 2):
+    for fn in ('restore_from', 'restore'):
+        st = ex.new_state()
+        seg = lambda name: Struct('LogSegment', {P.field('LogSegment', 'id'): Int(z3.BitVec(name + '.id', 64), False), P.field('LogSegment', 'data'): Seq('u8', []),
+                                                 P.field('LogSegment', 'capacity'): Int(z3.BitVec(name + '.cap', 64), False)})
+        sealed = [seg(f'sealed{i}') for i in range(nsealed)]
+        active = seg('active')
+        ids = [x.fields[P.field('LogSegment', 'id')].v for x in sealed + [active]]
+        for v_ in ids:
+            st.assume(z3.ULT(v_, z3.BitVecVal(1 << 62, 64)))
+        snap = Struct('BlobLogSnapshot', {P.field('BlobLogSnapshot', 'active'): active, P.field('BlobLogSnapshot', 'sealed'): Seq('LogSegment', sealed),
+                                          P.field('BlobLogSnapshot', 'index'): Map('ChunkHash', 'ChunkLocation', [], []), P.field('BlobLogSnapshot', 'segment_size'): Int(z3.BitVecVal(64, 64), False)})
+        st.frames = []
+        if fn == 'restore_from':
+            log = Struct('BlobLog', {}, lazy='BL')
+            st.roots['bl'] = log
+            ex.call(st, 'BlobLog::restore_from', [ref(log), snap])
+        else:
+            ex.call(st, 'BlobLog::restore', [snap])
+        res = ex.run(st)
+        ck.note_path_problem(res, f'BlobLog::{fn} sealed={nsealed}')
+        for r in res:
+            wit = lambda m, fn=fn, nsealed=nsealed, ids=ids: {'op': 'blob_restore', 'fn': fn, 'segment_ids': [mval(m, x) for x in ids]}
+            if r.status == 'panic':
+                ck.require(ex, 'C2_restored_blob_log_issues_fresh_segment_ids', r.pc, None, z3.BoolVal(False), wit, lambda m, w: 'blob-restore-panic')
+                continue
+            if r.status != 'return':
+                continue
+            restored += 1
+            bl = r.st.roots['bl'] if fn == 'restore_from' else r.retval
+            nxt = bl.fields[FB('next_segment_id')].fields['data'].load(0, None, r.st).v
+            ck.require(ex, 'C2_restored_blob_log_issues_fresh_segment_ids', r.pc, None, z3.And([z3.UGT(nxt, x) for x in ids]), wit, lambda m, w: 'segment-id-reused-after-restore',
+                       prefer=z3.And([x == z3.BitVecVal(i, 64) for i, x in enumerate(ids)]))
+ex.extra_models.clear()
+ex.extra_models.update(c2_saved)
+if restored == 0:
+    ck.inconclusive.append('C2 vacuous: BlobLog restore never returned')
+
 for v in ck.violations:
+    if v['witness'].get('op') == 'blob_restore':
+        rep = Replay.call({**v['witness'], 'op': 'blob_log_restore'})
+        v['native'] = rep
+        v['replayed'] = rep.get('violates')
+        continue
     rep = Replay.call({'op': 'store_rollback', 'slabs': v['witness'].get('slabs_not_refilled', [])})
     v['native'] = rep
     v['replayed'] = rep.get('violates')
-ck.functions += ['TensorStore::restore_from_bytes', 'SlabRouter::clear', 'SlabRouter::scan', 'SlabRouter::get', 'SlabRouter::put']
+ck.functions += ['BlobLog::restore_from', 'BlobLog::restore', 'TensorStore::restore_from_bytes', 'SlabRouter::clear', 'SlabRouter::scan', 'SlabRouter::get', 'SlabRouter::put']
 if __name__ == '__main__':
     ck.finish()
